@@ -75,6 +75,7 @@ def abstract_instance(cls, tag='nested'):
     o = SObj(rt)
     o.abstract = True
     o.abstract_of = cls
+    o.abstract_id = V.fresh_int('obj')
     if isinstance(rt, type) and issubclass(rt, RB.ArrayBase):
         # a vector: its items are not known, its declared invariant is (representation invariant of ArrayBase)
         try:
@@ -95,6 +96,30 @@ def spec_nested_parse(cls, parsable):
     P.nested = getattr(P, 'nested', set())
     P.nested.add(cls)
     buf = ops.as_seq(parsable)
+    # determinism: the same class applied to a provably equal byte string behaves identically (used by the 2-run
+    # obligations K8: the second run re-parses the same nested slices)
+    memo = getattr(P, 'nested_memo', None)
+    if memo is not None:
+        for mcls, mbuf, mout in memo:
+            if mcls is cls and P.entails(mbuf.n == buf.n):
+                j = V.fresh_int('mj')
+                if P.entails(z3.Implies(z3.And(j >= 0, j < buf.n), mbuf.at(j) == buf.at(j))):
+                    kind, val = mout
+                    if kind == 'raise':
+                        raise E.PyRaise(val)
+                    return val
+    try:
+        res = _fresh_outcome(P, cls, buf)
+    except E.PyRaise as pr:
+        if memo is not None:
+            memo.append((cls, buf.copy(), ('raise', pr.exc)))
+        raise
+    if memo is not None:
+        memo.append((cls, buf.copy(), ('ret', res)))
+    return res
+
+
+def _fresh_outcome(P, cls, buf):
     if P.choose('%s raises' % cls.__name__):
         if P.choose('NotEnoughData'):
             k = V.fresh_int('missing')
@@ -107,11 +132,19 @@ def spec_nested_parse(cls, parsable):
         k = V.fresh_int('rest')
         raise E.PyRaise(I.construct(TooMuchData, [], dict(bytes_needed=ops.wrap_int(k))))
     n = V.fresh_int('consumed')
+    P.last_consumed = n
     P.assume(z3.And(n >= 0, n <= buf.n))
-    P.assume(z3.Implies(buf.n > 0, n >= 1) if getattr(P, 'items_consume', True) and cls in ITEM_CLASSES else z3.BoolVal(True))
+    if cls in ITEM_CLASSES:
+        P.assume(z3.Implies(buf.n > 0, n >= 1))        # clause K2i of cls (proved by its own unit)
+    if cls.__name__ in FRAMING_NAMES:
+        P.assume(n >= 1)                               # clause K2 of a framing unit
+        from contracts.framing import DECLARED
+        if cls.__name__ in DECLARED:
+            P.assume(n == DECLARED[cls.__name__](buf))  # clause K8 of a framing unit: n is what its header declares
     return abstract_instance(cls), ops.wrap_int(n)
 
 
+FRAMING_NAMES = set()
 ITEM_CLASSES = set()      # classes used as items of a parsable vector (clause K2i applies to them)
 
 
@@ -154,6 +187,7 @@ def spec_arraybase_post_init(self):
     if isinstance(items, SObj) and getattr(items, 'abstract', False) and items.cls is self.cls:
         self.abstract = True
         self.abstract_of = items.abstract_of
+        self.abstract_id = items.abstract_id
         self.f.pop('_items', None)
         self.f.pop('_items_size', None)
         self.f['param'] = self.cls.get_param()
@@ -163,9 +197,23 @@ def spec_arraybase_post_init(self):
     raise I.Decline()
 
 
+def close_over_variants():
+    changed = True
+    while changed:
+        changed = False
+        for c in list(ITEM_CLASSES):
+            if isinstance(c, type) and issubclass(c, RB.VariantParsableBase):
+                for t in c._get_variant_types():
+                    if isinstance(t, type) and issubclass(t, ParsableBaseNoABC) and t not in ITEM_CLASSES:
+                        ITEM_CLASSES.add(t)
+                        changed = True
+
+
 def register():
-    from checks import census
+    from checks import census, e1
     collect_item_classes()
+    close_over_variants()
+    FRAMING_NAMES.update(e1.FRAMING)
     I.ABSTRACT_COMPOSE = spec_abstract_compose
     I.CONTRACTS[RB.ArrayBase.__attrs_post_init__] = spec_arraybase_post_init
     seen = set()
